@@ -76,25 +76,46 @@ Theorem timeout_when_silent : forall ncb T pre rest now' dl',
   r_out r = OTimeout /\ r_time r = Z.max now' dl' /\ r_taken r = length pre.
 Proof. exact timeout_when_silent_pf. Qed.
 
-(* marshal / subscribe / publish failures: internal error of that step, no waiting, no
-   callback, nothing read from the inbox; and an internal error of the call itself has no
-   other cause *)
-Theorem failures_are_internal_no_wait : forall ncb k T arr,
-  k <> FNone ->
+(* marshal / subscribe / publish failures, for EVERY error value the failing step may return
+   (plain, wrapped, a *res.Error carrying its own code such as system.accessDenied or
+   system.timeout, a nil *res.Error, a wrapper around one): the Error is
+   res.InternalError(err), i.e. code system.internalError and message
+   "Internal error: " ++ err.Error() (errString's fallback text if Error() panics); no waiting,
+   no callback, nothing read from the inbox *)
+Theorem failures_are_internal_no_wait : forall ncb k e T arr,
+  fail_err k = Some e ->
   let r := send ncb k T arr in
-  r_out r = OInternal k /\ r_time r = 0 /\ r_cbs r = [] /\ r_taken r = 0%nat /\ r_published r = false.
+  r_out r = OInternal k /\
+  res_error (r_out r) = Some (code_internal, prefix_internal ++ err_string e) /\
+  r_time r = 0 /\ r_cbs r = [] /\ r_taken r = 0%nat /\ r_published r = false.
 Proof. exact failures_are_internal_no_wait_pf. Qed.
 
+(* a failing step never lends its own code to the result *)
+Theorem failure_keeps_no_code : forall ncb k T arr code msg,
+  k <> FNone ->
+  res_error (r_out (send ncb k T arr)) = Some (code, msg) ->
+  code = code_internal /\ code <> code_timeout /\
+  exists e, fail_err k = Some e /\ msg = prefix_internal ++ err_string e.
+Proof. exact failure_keeps_no_code_pf. Qed.
+
+(* ... and an internal error of the call itself has no other cause *)
 Theorem internal_only_on_failure : forall ncb k T arr k',
   r_out (send ncb k T arr) = OInternal k' -> k = k' /\ k <> FNone.
 Proof. exact internal_only_on_failure_pf. Qed.
+
+(* the timeout code comes from the timer only (with timeout_iff_silence: exactly when no real
+   response arrives before the current deadline), never from a step failing with res.ErrTimeout *)
+Theorem timeout_code_only_from_timer : forall ncb k T arr msg,
+  res_error (r_out (send ncb k T arr)) = Some (code_timeout, msg) ->
+  k = FNone /\ r_out (send ncb k T arr) = OTimeout.
+Proof. exact timeout_code_only_from_timer_pf. Qed.
 
 (* the inbox subscription is released on every return path after a successful subscribe
    (publish failure included); when marshal or subscribe failed there is none to release *)
 Theorem unsubscribed_on_every_path : forall ncb k T arr,
   let r := send ncb k T arr in
   r_released r = r_subscribed r /\
-  (r_subscribed r = true <-> k <> FMarshal /\ k <> FSubscribe).
+  (r_subscribed r = true <-> (forall e, k <> FMarshal e) /\ (forall e, k <> FSubscribe e)).
 Proof. exact unsubscribed_on_every_path_pf. Qed.
 
 (* the payload the service writes in Request.Timeout, `timeout:"<decimal ms>"`, is a valid
@@ -137,6 +158,10 @@ Proof.
 Qed.
 
 Example publish_failure_releases :
-  send 2 FPublish (ms 200) [(ms 40, ex_res1)] = R (OInternal FPublish) [] 0 0 0 true false true
-  /\ send 2 FSubscribe (ms 200) [(ms 40, ex_res1)] = R (OInternal FSubscribe) [] 0 0 0 false false false.
-Proof. split; vm_compute; reflexivity. Qed.
+  let e := ERes code_timeout msg_timeout in     (* the step fails with res.ErrTimeout itself *)
+  send 2 (FPublish e) (ms 200) [(ms 40, ex_res1)] = R (OInternal (FPublish e)) [] 0 0 0 true false true
+  /\ send 2 (FSubscribe EResNil) (ms 200) [(ms 40, ex_res1)] = R (OInternal (FSubscribe EResNil)) [] 0 0 0 false false false
+  /\ res_error (OInternal (FPublish e)) = Some (code_internal, prefix_internal ++ msg_timeout)
+  /\ res_error (OInternal (FSubscribe EResNil)) = Some (code_internal, prefix_internal ++ panic_text)
+  /\ res_error (OInternal (FMarshal (ELazy [106; 58; 32]%N EResNil))) = Some (code_internal, prefix_internal ++ panic_text).
+Proof. repeat split; vm_compute; reflexivity. Qed.
